@@ -45,7 +45,7 @@ RULE = ('corpus + directed prefix (every type x {typical value, None, class leve
         '0/1/999999, date-only and datetime ranges, big ints, extreme floats, empty containers, nested tuples, non-string '
         'keys) + random classes of 1-5 parameters over all 17 types with values accepted by the real Parameter; '
         'the state, the json.loads tree, strict-JSON flag, deserialize_parameters result, rebuilt object, per-parameter '
-        'serialize_value/deserialize_value and the subset= variants are compared with the model and checked by the oracle. '
+        'serialize_value/deserialize_value, the subset= variants, and a second deserialization of the same text after the first result (and the object rebuilt from it) had its lists/dicts edited in place (equal to the state again, no shared container objects) are compared with the model and checked by the oracle. '
         'non-trivial = oracle applicable and at least one non-name parameter with a non-None value; distinct = distinct canonical case')
 COVERAGE_TARGETS = [f'{t}:value' for t in G.TYPES15 if t not in ('DateRange', 'CalendarDateRange')] + \
                    [f'{t}:none' for t in ('Number', 'String', 'Boolean', 'Tuple', 'Range', 'Date', 'CalendarDate',
@@ -67,6 +67,32 @@ def _res(f):
         return {'err': G.exc_name(e)}
 
 
+def _containers(vals):
+    """id -> object of every list/dict reachable from the values (through tuples too)"""
+    out = {}
+    todo = list(vals)
+    while todo:
+        v = todo.pop()
+        if isinstance(v, (list, dict)):
+            if id(v) in out:
+                continue
+            out[id(v)] = v
+        if isinstance(v, (list, tuple)):
+            todo.extend(v)
+        elif isinstance(v, dict):
+            todo.extend(v.values())
+    return out
+
+
+def _scribble(containers):
+    """what a user of a deserialized value may do: edit its containers in place"""
+    for c in containers.values():
+        if isinstance(c, list):
+            c.append('scribble')
+        else:
+            c['scribble'] = 1
+
+
 def run_impl(case):
     import param
     try:
@@ -78,11 +104,13 @@ def run_impl(case):
         out = {'invalid': False, 'state': _vals(obj, names)}
         subset = case.get('subset')
 
-        def roundtrip(sub):
+        def roundtrip(sub, keep=None):
             text = [None]
 
             def ser():
                 text[0] = obj.param.serialize_parameters(subset=sub)
+                if keep is not None:
+                    keep[0] = text[0]
                 return G.enc_fields(json.loads(text[0]), types)
             s = _res(ser)
             if 'err' in s:
@@ -93,16 +121,37 @@ def run_impl(case):
                 kw[0] = cls.param.deserialize_parameters(text[0], subset=sub)
                 return [[k, enc_val(v)] for k, v in kw[0].items()]
             return s, G.is_standard_json(text[0]), _res(de), kw[0]
-        out['ser'], out['standard'], out['deser'], kw = roundtrip(None)
+        text_all = [None]
+        rebuilt_obj = [None]
+        out['ser'], out['standard'], out['deser'], kw = roundtrip(None, text_all)
         if 'err' in out['deser']:
             out['rebuilt'] = {'err': 'nodeser'}
+            kw = None
         else:
             def rebuild():
                 b = cls(**kw)
+                rebuilt_obj[0] = b
                 return _vals(b, [n for n in names if n in kw])
             r = _res(rebuild)
             out['rebuilt'] = r if 'ok' in r else {'err': 'rejected'}
-        pv = []
+        # the same text once more, after the first result has been used and edited in place
+        again = {'deser': {'err': 'nodeser'}, 'rebuilt': {'err': 'nodeser'}, 'shared': False}
+        if kw is not None:
+            firsts = _containers(list(kw.values()))
+            if rebuilt_obj[0] is not None:
+                firsts.update(_containers([getattr(rebuilt_obj[0], n) for n in names if n in kw]))
+            _scribble(firsts)
+            kw2 = [None]
+
+            def de2():
+                kw2[0] = cls.param.deserialize_parameters(text_all[0])
+                return [[k, enc_val(v)] for k, v in kw2[0].items()]
+            again['deser'] = _res(de2)
+            if kw2[0] is not None:
+                again['shared'] = bool(set(_containers(list(kw2[0].values()))) & set(firsts))
+                r2 = _res(lambda: _vals(cls(**kw2[0]), [n for n in names if n in kw2[0]]))
+                again['rebuilt'] = r2 if 'ok' in r2 else {'err': 'rejected'}
+        pv, pv2 = [], []
         for n in names:
             txt = [None]
 
@@ -110,9 +159,21 @@ def run_impl(case):
                 txt[0] = obj.param.serialize_value(n)
                 return G.enc_tree(json.loads(txt[0]), types[n])
             s = _res(sv)
-            d = _res(lambda: enc_val(cls.param.deserialize_value(n, txt[0]))) if 'ok' in s else {'err': 'noser'}
+            first = [None]
+
+            def dv():
+                first[0] = cls.param.deserialize_value(n, txt[0])
+                return enc_val(first[0])
+            d = _res(dv) if 'ok' in s else {'err': 'noser'}
             pv.append([n, s, d])
+            if 'ok' in d:
+                _scribble(_containers([first[0]]))
+                pv2.append([n, _res(lambda: enc_val(cls.param.deserialize_value(n, txt[0])))])
+            else:
+                pv2.append([n, d])
         out['per_value'] = pv
+        again['per_value'] = pv2
+        out['again'] = again
         out['sub_ser'], _, out['sub_deser'], _ = roundtrip(subset)
         return out
     except G.Unsupported as e:
